@@ -26,7 +26,9 @@ def _find_dist_info_metadata(
         (str) The best zip path that matches this project
     """
     for best_match in (
-        r"^(.+/)?{}-.+\.dist-info/METADATA$".format(project_name),
+        # The wheel's own dist-info directory sits at the root of the archive.
+        r"^{}-[^/]+\.dist-info/METADATA$".format(re.escape(project_name)),
+        r"^(.+/)?{}-.+\.dist-info/METADATA$".format(re.escape(project_name)),
         r"^.*\.dist-info/METADATA",
     ):
         for info in namelist:
